@@ -56,6 +56,21 @@ func runC08Sched(c *core.Ctx) {
 		A.Conn, _ = A.A.StartDial(B.Ufrag, B.Pwd)
 		d.S.Settle()
 	}
+	// the closer may arrive together with the agent's own check tick (whose task sends on the candidate
+	// sockets), and those sockets may block every write until somebody aborts it: Close then lands between the
+	// hand-off of a task that is about to block in I/O and its start
+	closeAtTick := started && t.Bias(1, 2, "close-at-tick")
+	blockW := started && t.Bias(1, 2, "block-writes")
+	c.Knob("closeAtTick", closeAtTick)
+	c.Knob("blockWrites", blockW)
+	if blockW {
+		for _, so := range d.W.Sockets() {
+			if so.Host() == d.HA && so.Tag != "service" && !so.Closed() {
+				so.SetBlockWrites(true)
+			}
+		}
+		c.Fault("candidate-socket-writes-block")
+	}
 	s := sched.Install(c, c08TaskloopSites)
 
 	type call struct {
@@ -99,6 +114,9 @@ func runC08Sched(c *core.Ctx) {
 		cl := &call{name: fmt.Sprintf("Close#%d(graceful=%v)", i, graceful)}
 		closers = append(closers, cl)
 		go func() {
+			if closeAtTick {
+				time.Sleep(ci)
+			}
 			s.Yield("harness.c08.start")
 			if graceful {
 				cl.err = A.A.GracefulClose()
@@ -110,11 +128,15 @@ func runC08Sched(c *core.Ctx) {
 	}
 	c.Fault("close-interleaved-with-calls-in-progress")
 	steps := 0
-	for round := 0; round < 6; round++ {
+	for round := 0; round < 30; round++ { // up to 1.5 s of simulated time: the bound C08 allows Close
 		steps += s.Run(4000)
 		time.Sleep(50 * time.Millisecond) // timers of the agent (none is owed after Close)
 		synctest.Wait()
-		if s.NumParked() == 0 {
+		closed := true
+		for _, cl := range closers {
+			closed = closed && cl.done.Load()
+		}
+		if s.NumParked() == 0 && closed {
 			break
 		}
 	}
